@@ -6,6 +6,7 @@ open EIO EIO.Timer
 structure TmWorld where
   now : Nat := 0
   timers : Array Tm := #[]
+  self : List (Nat × Nat) := []      -- intervals whose callback cancels them after that many more runs
 
 /-- earliest timer due by `target` that has a waiter (ties: lowest index) -/
 def nextDue (ts : Array Tm) (target : Nat) : Option (Nat × Nat) :=
@@ -20,12 +21,20 @@ def nextDue (ts : Array Tm) (target : Nat) : Option (Nat × Nat) :=
       | none => best
     | none => best) none
 
-def advanceAll : Nat → Array Tm → Nat → List String → Array Tm × List String
-  | 0, ts, _, acc => (ts, acc)
-  | fuel + 1, ts, target, acc =>
+def advanceAll : Nat → Array Tm → List (Nat × Nat) → Nat → List String → Array Tm × List (Nat × Nat) × List String
+  | 0, ts, self, _, acc => (ts, self, acc)
+  | fuel + 1, ts, self, target, acc =>
     match nextDue ts target with
-    | some (i, d) => advanceAll fuel (ts.modify i fun t => t.fire d) target (acc ++ [s!"{i}@{d}"])
-    | none => (ts, acc)
+    | some (i, d) =>
+      let ts := ts.modify i fun t => t.fire d
+      -- a callback that cancels its own interval on its last run
+      let (ts, self) := match self.find? (·.1 = i) with
+        | some (_, n) =>
+          if n ≤ 1 then (ts.modify i Tm.stop, self.filter (·.1 ≠ i))
+          else (ts, self.map fun x => if x.1 = i then (i, n - 1) else x)
+        | none => (ts, self)
+      advanceAll fuel ts self target (acc ++ [s!"{i}@{d}"])
+    | none => (ts, self, acc)
 
 def tmAnswer (w : TmWorld) (fired : List String) : String :=
   let g := w.timers.foldl (fun n t => n + t.waiters) 0
@@ -53,15 +62,19 @@ def tmStep (w : TmWorld) (toks : List String) : TmWorld × String :=
   | ["refreshstop", k] =>
     let w := { w with timers := w.timers.modify k.toNat! fun t => (t.refresh w.now).stop }; (w, tmAnswer w [])
   | ["clearnil"] => (w, tmAnswer w [])
+  | ["intervalself", k, p, n] =>
+    let w := { w with timers := setAt w.timers k.toNat! (Tm.start true p.toNat! w.now),
+                      self := (w.self.filter (·.1 ≠ k.toNat!)) ++ [(k.toNat!, n.toNat!)] }
+    (w, tmAnswer w [])
   | ["sleep", d] =>
     let target := w.now + d.toNat!
-    let (ts, fired) := advanceAll ((d.toNat! + 2) * (w.timers.size + 1)) w.timers target []
-    let w := { now := target, timers := ts }
+    let (ts, self, fired) := advanceAll ((d.toNat! + 2) * (w.timers.size + 1)) w.timers w.self target []
+    let w := { now := target, timers := ts, self := self }
     (w, tmAnswer w fired)
   | ["stopat", k, d] =>
     let target := w.now + d.toNat!
-    let (ts, _) := advanceAll ((d.toNat! + 2) * (w.timers.size + 1)) w.timers target []
-    let w : TmWorld := { now := target, timers := ts.modify k.toNat! Tm.stop }
+    let (ts, self, _) := advanceAll ((d.toNat! + 2) * (w.timers.size + 1)) w.timers w.self target []
+    let w : TmWorld := { now := target, timers := ts.modify k.toNat! Tm.stop, self := self }
     let g := w.timers.foldl (fun n t => n + t.waiters) 0
     (w, s!"stopat g={g}")
   | _ => (w, "bad-op")
